@@ -1,9 +1,12 @@
 import EmsModel.Core.DepthProto
+import EmsModel.Props.C12
 /-! Line-protocol driver for C12 (ocean floor).
 `floor <kb:0|1> <DS> <coords|-> <ns|-> [<order>]` → `OK <DS'>` | `ERR`
       kb=1: the code as written (`extract_vars(..., keep_bounds=True)`); kb=0: no foreign bounds
       variable in a group's subset.  `order`: the order in which the depth dimensions are visited
       (default: the order of the coordinates)
+`hyp <kb:0|1> <DS> <coords|-> <ns|->` → `1` iff the hypotheses of the dataset-level theorems (`Ems.C12.Setting`,
+      decided by `Ems.C12.settingB`, sound by `settingB_sound`) hold for this input
 `fidx <column of v/n>` → `<floorIndex>`            (`_find_ocean_floor_indexes` on one column)
 `propcheck <column of v/n>` → `1` iff floorIndex = index of the last `v` (0 if none) -/
 open Ems Ems.Proto Ems.Depth Ems.Depth.Proto
@@ -28,6 +31,10 @@ def step (line : String) : String :=
       | some (some out) => s!"OK {showDataset out}"
       | some none => "ERR"
       | none => "BAD"
+    | _, _ => "BAD"
+  | ["hyp", kb, dss, coords, ns] =>
+    match parseDataset? dss, (if kb == "0" then some false else if kb == "1" then some true else none) with
+    | some ds, some kb => if Ems.C12.settingB kb ds (parseNames coords) (parseNames ns) then "1" else "0"
     | _, _ => "BAD"
   | ["fidx", col] =>
     match parseCol? col with
